@@ -119,3 +119,45 @@ def run_split_unit(check_id, unit, monitor_classes, nontrivial_rule=None, drive=
             bound=unit["bound"], kinds=unit["kinds"], start=unit["start"], solo=unit["solo"],
             nontrivial_rule=nontrivial_rule, drive=drive, shim_factory=shim_factory)
     return res
+
+
+# --------------------------------------------------------------------------------------
+# boundary worlds (C01, C02, C03, C04, C20) and minimize() budgets
+# --------------------------------------------------------------------------------------
+
+
+def chunks(lst, n):
+    return [lst[i : i + n] for i in range(0, len(lst), n)]
+
+
+def run_descs(res, check_id, unit, descs, monitor_classes, nontrivial_rule=None, bound=0, kinds=None, shim_factory=None, drive=None):
+    for desc in descs:
+        explore(res, check_id, {k: v for k, v in unit.items() if k != "descs"}, desc, monitor_classes, bound=bound,
+                kinds=kinds, nontrivial_rule=nontrivial_rule, shim_factory=shim_factory, drive=drive)
+    return res
+
+
+class CountingFun:
+    def __init__(self, f):
+        self.f = f
+        self.calls = []
+        self.vals = []
+
+    def __call__(self, x):
+        import numpy as np
+
+        v = self.f(x)
+        self.calls.append(np.array(x, dtype=float, copy=True).tobytes())
+        self.vals.append(v)
+        return v
+
+
+def minimize_run(boxname, objname, seed, **kw):
+    from pyhms import minimize
+
+    from .world import box_array, make_objective
+
+    box = box_array(boxname)
+    cf = CountingFun(make_objective(objname, box, False))
+    r = minimize(cf, box, seed=seed, **kw)
+    return cf, r
